@@ -100,7 +100,7 @@ func Harness_C19_stack() {
 }
 
 // Harness_C19_reader_reread: as Harness_C19_reader, on tables whose log block is so full that the reader has to fetch it a second time with a larger size (the path that handles blocks larger than the first guess).
-// bounds: 2 refs + 3 reflog entries of one name, BlockSize 256 x Unaligned; the message length of the last entry sweeps 56..95, so the inflated size of the log block takes every value in a window reaching up to the block size; lookup key of 0..1 bytes
+// bounds: 2 refs + 3 reflog entries of one name, BlockSize 256 x Unaligned; the message length of the last entry sweeps 56..95, so the inflated size of the first log block takes every value in a window reaching up to the block size, and further log blocks follow it; lookup key of 0..1 bytes
 // covers: done
 func Harness_C19_reader_reread() {
 	cfg := Config{BlockSize: 256, Unaligned: VerifChoose(2) == 1}
@@ -119,6 +119,20 @@ func Harness_C19_reader_reread() {
 		}
 		logs = append(logs, l)
 	}
+	// further log blocks behind the brim-full one: the larger fetch then reaches into data that follows
+	for i := 0; i < 3; i++ {
+		logs = append(logs, &LogRecord{RefName: "b", UpdateIndex: uint64(3 - i), New: hashWith(20, byte(i), 4), Old: hashWith(20, byte(i), 5), Name: "n", Email: "e", Time: uint64(20 + i), Message: "m\n"})
+	}
+	// hashes that deflate cannot shrink, so that the blocks are as long on disk as inflated
+	x := uint32(12345)
+	for _, l := range logs {
+		for _, h := range [][]byte{l.New, l.Old} {
+			for k := range h {
+				x = x*1664525 + 1013904223
+				h[k] = byte(x >> 24)
+			}
+		}
+	}
 	data, ok := writeTable(cfg, 1, 3, refs, logs)
 	VerifAssert(ok, "writer-accepts")
 	rd, err := NewReader(&ByteBlockSource{data}, "t")
@@ -128,6 +142,42 @@ func Harness_C19_reader_reread() {
 	}
 	key := symString(VerifIntRange(0, 1))
 	oid := hashWith(20, 1, 1)
+	VerifFreeze(rd)
+	VerifShared(func(i int) string { return readWorkload(rd, key, oid) })
+	VerifCover("done")
+}
+
+// brokenSource is a block source with one unreadable region (a bad sector); it has no state of its own.
+type brokenSource struct {
+	BlockSource
+	bad uint64
+}
+
+func (f *brokenSource) ReadBlock(off uint64, size int) ([]byte, error) {
+	if off <= f.bad && f.bad < off+uint64(size) {
+		return nil, fmtError
+	}
+	return f.BlockSource.ReadBlock(off, size)
+}
+
+// Harness_C19_reader_fault: a read error met by one reader of a shared table stays that reader's business: failing reads write no shared state either, and the other reads return what they return alone.
+// bounds: shapes 1 and 2 of the shaped tables behind a block source that cannot read one byte position (every 16th position of the block area, chosen symbolically; the header and footer stay readable); two runs of the read workload with a lookup key of 0..1 bytes
+// assumes: the only I/O fault is the unreadable position (injected by the harness)
+// covers: done
+func Harness_C19_reader_fault() {
+	sh := pickShape([]int{1, 2}[VerifChoose(2)])
+	refs, logs := buildShape(sh)
+	data, ok := writeTable(sh.cfg, 1, 4, refs, logs)
+	VerifAssert(ok, "writer-accepts")
+	body := len(data) - 68
+	bad := uint64(24 + 16*VerifIntRange(0, (body-25)/16))
+	rd, err := NewReader(&brokenSource{&ByteBlockSource{data}, bad}, "t")
+	if err != nil {
+		return
+	}
+	key := symString(VerifIntRange(0, 1))
+	oid := make([]byte, rd.hashSize)
+	oid[0] = 3
 	VerifFreeze(rd)
 	VerifShared(func(i int) string { return readWorkload(rd, key, oid) })
 	VerifCover("done")
